@@ -40,6 +40,8 @@ ASSUMPTIONS = [
     "subject of C01/C04, the oracle here checks the foreign content inside them on the real code only",
 ]
 OPEN = [
+    "TableHead and XRecord are tied by the AST-extracted statement order and a payload mini model (stream X4) only; the rest of "
+    "their attribute handling is oracle-only",
     "storage_idempotent is proved for EntityWF inputs in any base-class order; for malformed inputs the fixed point property is "
     "checked by the correspondence stream (model and code) only",
     "proxy graphic decoding, ACDSDATA record internals, CLASS attribute loading and header variable values are oracle-only",
@@ -828,7 +830,7 @@ class Splice:
         if allow_xdict and rng.random() < 0.45:
             dh, xh = self.H(), self.H()
             payload = [t for t in body_tags(rng, rng.randint(1, 8)) if t[0] not in (5, 105, 101, 102)]
-            if rng.random() < self.knobs.get("xrecord100", 0.1):
+            if rng.random() < self.knobs.get("xrecord100", 0.3):
                 # group code 100 is a legal XRECORD payload code (1..369 except 5 and 105)
                 payload.insert(rng.randint(0, len(payload)), (100, rng.choice(["AcmeMarker", "x"])))
             payload = flat(payload)
@@ -1353,7 +1355,11 @@ def check_file_case(ctx, sp: Splice, tags_in, out, label, rep):
             want = []
             for k, v in data:
                 want += [("$CUSTOMPROPERTYTAG", k), ("$CUSTOMPROPERTY", v)]
-            if got != want:
+            if sp.ver < "AC1018":
+                # permitted version loss: the two variables need DXF R2004, a R2000 file must not contain them
+                if got:
+                    fail("custom-props/written-into-r2000", f"R2004 header variables written into a {sp.ver} file: {got}")
+            elif got != want:
                 fail(f"custom-props/{key}", f"custom header properties {want} written as {got} (mode {key}, $LASTSAVEDBY "
                      f"{'written' if '$LASTSAVEDBY' in names else 'not written'})")
         elif kind == "header-var":
@@ -1655,18 +1661,20 @@ def correspond_header_classes(ctx):
         impl = ";".join(f"{cps(a)}:{cps(b)}" for a, b in h.custom_vars)
         req = "custom|" + ";".join(f"{cps(a)}:{cps(b)}" for a, b in groups)
         cases.append((req, impl, any(n.startswith("$CUSTOM") for n, _ in groups)))
-        # where they are written
-        col = CompiledCollector("AC1024")
-        h.export_dxf(col)
-        written, exported = [], []
-        for i, (c, v) in enumerate(col.tags):
-            if c == 9:
-                if v in ("$CUSTOMPROPERTYTAG", "$CUSTOMPROPERTY"):
-                    written.append((v, col.tags[i + 1][1]))
-                else:
-                    exported.append(v)
-        req = "written|" + ";".join(cps(n) for n in exported) + "|" + ";".join(f"{cps(a)}:{cps(b)}" for a, b in h.custom_vars)
-        cases.append((req, ";".join(f"{cps(a)}:{cps(b)}" for a, b in written), len(h.custom_vars) > 0))
+        # where they are written, for a target version older than R2004 and for R2004+
+        for ver in ("AC1015", "AC1024"):
+            col = CompiledCollector(ver)
+            h.export_dxf(col)
+            written, exported = [], []
+            for i, (c, v) in enumerate(col.tags):
+                if c == 9:
+                    if v in ("$CUSTOMPROPERTYTAG", "$CUSTOMPROPERTY"):
+                        written.append((v, col.tags[i + 1][1]))
+                    else:
+                        exported.append(v)
+            ctx.hist("X3 header custom properties, CLASS keys", f"written:{ver}:lastsavedby={'$LASTSAVEDBY' in exported}:props={len(h.custom_vars) > 0}")
+            req = f"written|{int(ver >= 'AC1018')}|" + ";".join(cps(n) for n in exported) + "|" + ";".join(f"{cps(a)}:{cps(b)}" for a, b in h.custom_vars)
+            cases.append((req, ";".join(f"{cps(a)}:{cps(b)}" for a, b in written), len(h.custom_vars) > 0))
     # CLASS registration
     cn = ["FOO", "BAR", "MATERIAL", "X"]
     cc = ["AcDbFoo", "AcDbBar", "AcDbMaterial"]
@@ -1680,6 +1688,59 @@ def correspond_header_classes(ctx):
     ctx.correspond("X3 header custom properties, CLASS keys", "C02", cases)
 
 
+# ------------------------------------------------------------------ X4: XRECORD load -> export
+def impl_xrecord(ctags_, alive):
+    from ezdxf.entities import factory
+    from ezdxf.lldxf.const import DXFStructureError
+    from ezdxf.lldxf.extendedtags import ExtendedTags
+
+    try:
+        e = factory.load(ExtendedTags.from_text(to_text(ctags_)), None)
+        assert type(e).__name__ == "XRecord"
+        e.post_load_hook(_StubDoc(alive))
+        col = CompiledCollector()
+        e.export_dxf(col)
+        return "ok " + enc_tags(col.tags)
+    except DXFStructureError as ex:
+        m = str(ex)
+        return "err " + ("missingAppClose" if "closing" in m else "xdictError" if "XDICTIONARY" in m else "noType" if "Missing subclass" in m else "unexpectedTag")
+    except ValueError as ex:
+        return "err " + ("badReactor" if "base 16" in str(ex) else "other:ValueError")
+    except Exception as ex:  # noqa
+        return f"err other:{type(ex).__name__}"
+
+
+def correspond_xrecord(ctx):
+    rng = ctx.rng("xrecord")
+    cases = []
+    for i in range(ctx.n(1500, 10000)):
+        tags, alive, _ = gen_entity(rng, "ordered" if i % 3 else "malformed")
+        base = []
+        for t in tags[1:]:
+            if t[0] in (100, 1001) or t == (101, "Embedded Object"):
+                break
+            base.append(t)
+        xd = tags[next((k for k, t in enumerate(tags) if t[0] == 1001), len(tags)):]
+        payload = [t for t in body_tags(rng, rng.randint(0, 8)) if t[0] not in (5, 105, 101)]
+        k = rng.randrange(8)
+        if k < 3:  # group code 100 inside the payload (legal for XRECORD)
+            for _ in range(rng.randint(1, 2)):
+                payload.insert(rng.randint(0, len(payload)), (100, rng.choice(["AcmeMarker", "AcDbXrecord", "x"])))
+        body = [(100, "AcDbXrecord"), (280, str(rng.randint(0, 5)))] + payload
+        if k == 3:
+            body = [(100, "AcDbXrecord")] + payload           # no cloning flag
+        elif k == 4:
+            body = []                                         # no subclass at all
+        elif k == 5:
+            body = body + [(101, "Embedded Object"), (1, "dropped")]
+        elif k == 6:
+            body = [(100, "Other")] + payload
+        rec = [(0, "XRECORD")] + base + body + xd
+        ctx.hist("X4 XRECORD", ["code100", "code100", "code100", "no-280", "no-subclass", "embedded", "other-marker", "plain"][k])
+        cases.append((f"xrec|{','.join(cps(h) for h in alive)}|{enc_tags(rec)}", impl_xrecord(rec, alive), len(payload) > 0))
+    ctx.correspond("X4 XRECORD", "C02", cases)
+
+
 def correspond(ctx):
     import logging
 
@@ -1687,6 +1748,7 @@ def correspond(ctx):
     correspond_entities(ctx)
     correspond_structure(ctx)
     correspond_header_classes(ctx)
+    correspond_xrecord(ctx)
 
 
 def replay(ctx, rep):
